@@ -12,7 +12,7 @@ contract(H + "mir", {"r": IV, "c": "int"}, returns=IV, transparent=True, props=[
 _T2 = ["t_overlaps", "t_contains", "t_left_of", "t_intersection_len", "t_overlap_intervals", "t_max_range", "t_covers"]
 _T3 = ["t_equal_ranges", "t_contains_well_inside", "t_overlaps_at_least"]
 _M2 = ["m_overlaps", "m_left_of", "m_covers", "m_intersection"]
-_M3 = ["m_contains", "m_equal_ranges"]
+_M3 = ["m_contains", "m_equal_ranges", "m_overlaps_at_least"]
 for n in _T2:
     contract(H + n, {"a": IV, "b": IV, "k": "int"}, returns="bool", props=["C11"], requires=["a[0] <= a[1]", "b[0] <= b[1]"],
              ensures=["result"], gen=lambda rng, m: ({"a": (x, x + rng.randint(0, 9)), "b": (y, y + rng.randint(0, 9)), "k": rng.randint(-300, 300)}
@@ -33,6 +33,10 @@ for n in _M3:
              gen=lambda rng, m: ({"a": (x, x + rng.randint(0, 9)), "b": (y, y + rng.randint(0, 9)), "d": rng.randint(0, 4), "c": rng.randint(40, 500)}
                                  for x, y in ((rng.randint(0, 30), rng.randint(0, 30)) for _ in range(m))))
 
+contract(H + "m_overlaps_at_least_when_overlap", {"a": IV, "b": IV, "d": "int", "c": "int"}, returns="bool", props=["C11"],
+         requires=["a[0] <= a[1]", "b[0] <= b[1]", "d >= 0", "max(a[0], b[0]) <= min(a[1], b[1])"], ensures=["result"],
+         gen=lambda rng, m: ({"a": (x, x + rng.randint(0, 9)), "b": (y, y + rng.randint(0, 9)), "d": rng.randint(0, 4), "c": rng.randint(40, 500)}
+                             for x, y in ((rng.randint(0, 12), rng.randint(0, 12)) for _ in range(m))))
 
 # ---- bounded: the real assigner / corrector under a shift of all coordinates and under reflection ---------------------------------------
 MIRROR_EVENT = lambda n: (n.replace("_left", "_L#").replace("_right", "_left").replace("_L#", "_right"))
